@@ -193,6 +193,10 @@ def run(ctx, config='rel-all', shares=True):
     from .. import runner
     if shares:
         clients.check(ctx, config, 'R9')
+        # ---- R11 reset hands a tail to the releaser only after / together with detaching it on every path (the path obligations of
+        # C06.R1 / R2): a path that frees the older chunks and returns with `prev` still pointing at them frees them again later
+        from . import c06
+        c06.run(runner.Sub(ctx, 'R11', 'C06', only={'R1', 'R2'}), config, shares=False)
         if config == 'rel-all':
             c05.run(runner.Sub(ctx, 'R10', 'C05', only={'W1', 'R2'}), config)     # the borrow / lifetime half; Send / Sync says nothing about when chunks are freed
     # ---- R6 no destructors from reset/drop
